@@ -135,11 +135,13 @@ def distinguishable_number_state(
             "multiple 'NumberState' instructions."
         )
 
-    state._occupation_numbers.append(
-        np.rint(
-            instruction._get_all_params(state._connector)["occupation_numbers"]
-        ).astype(int)
-    )
+    occupation_numbers = np.rint(
+        instruction._get_all_params(state._connector)["occupation_numbers"]
+    ).astype(int)
+
+    _validate_or_infer_cutoff(state, occupation_numbers, instruction)
+
+    state._occupation_numbers.append(occupation_numbers)
     state._coefficients.append(1.0)
 
     particle_overlap = instruction._get_all_params(state._connector)["particle_overlap"]
